@@ -42,6 +42,7 @@ type HTTPStopCase struct {
 	Method      string         `json:"method"` // stop | shutdown
 	Early       int            `json:"early"`  // -1: after every client reached its state; k: as soon as k clients did
 	Late        bool           `json:"late,omitempty"` // one more client connects while the stop is in progress
+	TLS         bool           `json:"tls,omitempty"`  // TLS listener (llib, transformed), crypto/tls clients
 }
 
 func genHTTPStopCase(r *simrt.Rand, tier string) *HTTPStopCase {
@@ -73,6 +74,7 @@ func genHTTPStopCase(r *simrt.Rand, tier string) *HTTPStopCase {
 		c.Early = r.Intn(n + 1)
 	}
 	c.Late = r.Bool(0.2)
+	c.TLS = r.Bool(0.2)
 	return c
 }
 
@@ -107,6 +109,11 @@ func shrinkHTTPStop(ci interface{}) []interface{} {
 	if c.Late {
 		x := cp()
 		x.Late = false
+		out = append(out, x)
+	}
+	if c.TLS {
+		x := cp()
+		x.TLS = false
 		out = append(out, x)
 	}
 	if c.NPoller > 1 {
@@ -188,7 +195,9 @@ func runHTTPStop(t *testing.T, ci interface{}, trace bool) *common.Outcome {
 				w.Write([]byte("ok"))
 			}
 		})
+		tlsOn = c.TLS
 		eng := newEngine(c.IOMod, c.Mode, c.NPoller, c.Pool, c.MaxBlocking, handler)
+		tlsOn = false
 		u.Engine = eng
 		if err := eng.Start(); err != nil {
 			o.Infra = "engine start: " + err.Error()
@@ -196,7 +205,7 @@ func runHTTPStop(t *testing.T, ci interface{}, trace bool) *common.Outcome {
 		}
 		addr := &kernel.Addr{Net: "tcp", IP: [4]byte{127, 0, 0, 1}, Port: 8080}
 		type cst struct {
-			sock    *kernel.Sock
+			p       *peer
 			recvd   []byte
 			eof     bool
 			ready   bool
@@ -204,32 +213,48 @@ func runHTTPStop(t *testing.T, ci interface{}, trace bool) *common.Outcome {
 		}
 		conns := make([]*cst, len(c.Conns))
 		reached := 0
+		var tlsPeers []*peer
 		client := func(i int, p StopConnPlan) *cst {
-			cs := &cst{sock: k.NewPeer(kernel.TCP)}
-			if err := k.ConnectPeer(cs.sock, addr); err != nil {
-				cs.refused, cs.eof, cs.ready = true, true, true
-				reached++
-				return cs
-			}
-			simrt.GoNamed(fmt.Sprintf("sclient%d-reader", i), func() {
-				simrt.MarkDaemon()
-				for {
-					simrt.WaitUntil("client-readable", func() bool { return cs.sock.Readable() > 0 || cs.sock.EOF() || cs.sock.Closed() })
-					if cs.sock.Readable() == 0 {
-						cs.eof = true
-						return
-					}
-					b, err := cs.sock.PeerRead(1 << 16)
-					if err != nil {
-						cs.eof = true
-						return
-					}
-					cs.recvd = append(cs.recvd, b...)
+			cs := &cst{}
+			if !c.TLS {
+				pp, err := dialPeer(k, addr)
+				if err != nil {
+					cs.refused, cs.eof, cs.ready = true, true, true
+					reached++
+					return cs
 				}
-			})
+				cs.p = pp
+			}
+			reader := func() {
+				simrt.GoNamed(fmt.Sprintf("sclient%d-reader", i), func() {
+					simrt.MarkDaemon()
+					for {
+						b, err := cs.p.read()
+						if err != nil {
+							cs.eof = true
+							return
+						}
+						cs.recvd = append(cs.recvd, b...)
+					}
+				})
+			}
+			if !c.TLS {
+				reader()
+			}
 			simrt.GoNamed(fmt.Sprintf("sclient%d", i), func() {
 				defer func() { cs.ready = true; reached++ }()
-				send := func(s string) { cs.sock.PeerWrite([]byte(s)) }
+				if c.TLS {
+					// (a handshake that the stop interrupts counts as a refused connection)
+					pp, err := dialTLSPeer(k, "127.0.0.1:8443")
+					if err != nil {
+						cs.refused, cs.eof = true, true
+						return
+					}
+					cs.p = pp
+					tlsPeers = append(tlsPeers, pp)
+					reader()
+				}
+				send := func(s string) { cs.p.write([]byte(s), 0) }
 				switch p.Kind {
 				case "idle":
 				case "partial":
@@ -245,7 +270,7 @@ func runHTTPStop(t *testing.T, ci interface{}, trace bool) *common.Outcome {
 					simrt.WaitStuck("await-101", time.Second, func() bool { return bytes.Contains(cs.recvd, []byte("\r\n\r\n")) || cs.eof })
 					if p.Kind == "wsmsg" && !cs.eof {
 						// one masked text frame "hi", echoed by the server
-						cs.sock.PeerWrite([]byte{0x81, 0x82, 1, 2, 3, 4, 'h' ^ 1, 'i' ^ 2})
+						cs.p.write([]byte{0x81, 0x82, 1, 2, 3, 4, 'h' ^ 1, 'i' ^ 2}, 0)
 					}
 				}
 			})
@@ -301,6 +326,13 @@ func runHTTPStop(t *testing.T, ci interface{}, trace bool) *common.Outcome {
 				fail("connection-not-closed", class+"/"+kind, "connection %d (%s) is still open for its peer after %s returned and the world became quiescent", i, kind, c.Method)
 				return
 			}
+		}
+		// the descriptors of the TLS clients belong to the harness
+		for _, pp := range tlsPeers {
+			pp.nconn.Close()
+		}
+		if c.TLS {
+			addr = &kernel.Addr{Net: "tcp", IP: [4]byte{127, 0, 0, 1}, Port: 8443}
 		}
 		if k.Listening(addr) {
 			fail("still-listening", class, "the listener still accepts connections after %s returned", c.Method)
